@@ -350,7 +350,45 @@ impl Runner {
             self.ev.count(&format!("fault_fired/{}", out.fault_fired.as_ref().unwrap().1));
         }
         let post = observe(&self.w);
-        let ledger = ledger_from(&self.w, &actor_addr, step, &out);
+        let mut ledger = ledger_from(&self.w, &actor_addr, step, &out);
+        // native coins attached to a sub-message move without an event: whatever the events leave unexplained is turned
+        // into ledger entries (largest debtor to largest creditor, by account name) so that the oracles see those moves
+        if self.w.cfg.coll.is_native() && out.ok {
+            let mut net: BTreeMap<String, i128> = BTreeMap::new();
+            for x in ledger.iter() {
+                *net.entry(x.from.clone()).or_insert(0) -= x.amount as i128;
+                *net.entry(x.to.clone()).or_insert(0) += x.amount as i128;
+            }
+            let mut names: BTreeSet<&String> = self.obs.bal.keys().collect();
+            names.extend(post.bal.keys());
+            names.extend(net.keys());
+            let mut neg: Vec<(String, i128)> = vec![];
+            let mut pos: Vec<(String, i128)> = vec![];
+            for n in names {
+                let un = (post.bal(n) as i128 - self.obs.bal(n) as i128) - *net.get(n).unwrap_or(&0);
+                if un < 0 {
+                    neg.push((n.clone(), -un));
+                } else if un > 0 {
+                    pos.push((n.clone(), un));
+                }
+            }
+            if !neg.is_empty() && neg.iter().map(|x| x.1).sum::<i128>() == pos.iter().map(|x| x.1).sum::<i128>() {
+                self.ev.count("native_moves_without_event");
+                let (mut i, mut j) = (0, 0);
+                while i < neg.len() && j < pos.len() {
+                    let a = neg[i].1.min(pos[j].1);
+                    ledger.push(Xfer { from: neg[i].0.clone(), to: pos[j].0.clone(), amount: a as u128 });
+                    neg[i].1 -= a;
+                    pos[j].1 -= a;
+                    if neg[i].1 == 0 {
+                        i += 1;
+                    }
+                    if pos[j].1 == 0 {
+                        j += 1;
+                    }
+                }
+            }
+        }
         // harness self-check: ledger nets equal balance deltas
         {
             let mut net: BTreeMap<String, i128> = BTreeMap::new();
@@ -360,6 +398,7 @@ impl Runner {
             }
             let mut names: BTreeSet<&String> = self.obs.bal.keys().collect();
             names.extend(post.bal.keys());
+            names.extend(net.keys());
             for n in names {
                 let dlt = post.bal(n) as i128 - self.obs.bal(n) as i128;
                 let l = *net.get(n).unwrap_or(&0);
